@@ -82,3 +82,50 @@ Example C04_nonvacuous_runs :
   /\ is_ok (tpl_detailed N c04_K c04_opt (fun _ => neutral) c04_hs src_recheck c04_fs (dict_obj [(2, 5); (1, 6); (4, 80)])) = false
   /\ is_ok (tpl_fast N c04_K c04_opt (fun _ => neutral) c04_hs src_kw_last c04_fs (dict_obj [(2, 5); (1, 6); (4, 80)])) = false.
 Proof. vm_compute. repeat split. Qed.
+
+(* ---- TypedDicts (gen/typeddicts.py), the templates a converter generates on its own (no overrides) ----
+   For EVERY payload value type, per-key handlers hs, TypedDict definition fs (any mix of required and
+   NotRequired keys), generator options, and EVERY dict payload d: the detailed-validation template and
+   the fast one either both reject, or both accept and return the same dict -- same keys, same order,
+   same values.  (The two templates process the keys in a different order: required first in the fast
+   one.) *)
+From V.Model Require Import TdTemplates.
+From V.Proofs Require Import TdProofs.
+Theorem C04_typeddict_templates_agree :
+  forall (V : Type) (opt : tdopts) (hs : N -> V -> result V) (d : list (N * V)) (fs : list tdfield),
+    NoDup (keys d) ->
+    to_opt (td_detailed V opt (fun _ => neutral) hs fs (dict_obj d))
+    = to_opt (td_fast V opt (fun _ => neutral) hs fs (dict_obj d)).
+Proof. intros V opt hs d fs Hnd. exact (td_templates_agree V opt hs d Hnd fs). Qed.
+Print Assumptions C04_typeddict_templates_agree.
+
+(* the restriction to dict payloads is necessary: on a non-mapping object that has .copy() (a list), a
+   TypedDict without required keys is accepted by the fast template and rejected by the detailed one
+   (finding F11, open) *)
+Definition c04_list_obj : pobj N :=
+  {| o_in := fun _ => Ok false; o_get := fun _ => Err EType; o_keys := Err EAttr; o_iter := Ok [];
+     o_is_mapping := false; o_copy := Ok None |}.
+Theorem C04_typeddict_nonmapping_refuted :
+  exists (opt : tdopts) (hs : N -> N -> result N) (fs : list tdfield) (o : pobj N),
+    is_ok (td_fast N opt (fun _ => neutral) hs fs o) = true /\
+    is_ok (td_detailed N opt (fun _ => neutral) hs fs o) = false.
+Proof.
+  exists {| td_cl := 1; td_forbid := false; td_skip_self_rename := true |}, (fun _ v => Ok v),
+         [{| d_name := 1; d_required := false |}], c04_list_obj.
+  vm_compute. split; reflexivity.
+Qed.
+Print Assumptions C04_typeddict_nonmapping_refuted.
+
+Definition c04_td : list tdfield :=
+  [ {| d_name := 1; d_required := false |}; {| d_name := 2; d_required := true |}; {| d_name := 3; d_required := true |} ].
+Definition c04_tdopt := {| td_cl := 9; td_forbid := false; td_skip_self_rename := true |}.
+Example C04_typeddict_nonvacuous :
+  td_fast N c04_tdopt (fun _ => neutral) c04_hs c04_td (dict_obj [(3, 5); (8, 70); (1, 6); (2, 7)])
+    = Ok (Some [(3, 3005); (8, 70); (1, 1006); (2, 2007)])
+  /\ td_detailed N c04_tdopt (fun _ => neutral) c04_hs c04_td (dict_obj [(3, 5); (8, 70); (1, 6); (2, 7)])
+    = Ok (Some [(3, 3005); (8, 70); (1, 1006); (2, 2007)])
+  /\ is_ok (td_fast N c04_tdopt (fun _ => neutral) c04_hs c04_td (dict_obj [(3, 5); (1, 60); (2, 7)])) = false
+  /\ is_ok (td_detailed N c04_tdopt (fun _ => neutral) c04_hs c04_td (dict_obj [(3, 5); (1, 60); (2, 7)])) = false
+  /\ is_ok (td_fast N c04_tdopt (fun _ => neutral) c04_hs c04_td (dict_obj [(3, 5)])) = false
+  /\ is_ok (td_detailed N c04_tdopt (fun _ => neutral) c04_hs c04_td (dict_obj [(3, 5)])) = false.
+Proof. vm_compute. repeat split. Qed.
